@@ -20,6 +20,7 @@ that later in-place edits of a member are seen through the chain, exactly as in 
 piecewise affine transforms are opaque leaves.
 -/
 import MenpoModel.Core.C03Mat
+import MenpoModel.Core.PyData
 
 namespace MenpoModel.C03
 
@@ -218,6 +219,11 @@ inductive Plain
   /-- `WithDims(mask)` with a Boolean mask (`np.array([True, True, False])`): the columns where the
   mask is true; numpy refuses a mask whose length is not the dimension -/
   | withMask (bs : List Bool)
+  /-- `WithDims(ds)` with integers of either sign (`[-1, 0]`, or a single integer `-1`, which
+  `_apply` reshapes to one column): numpy counts a negative index from the end -/
+  | withIdx (ds : List Int)
+  /-- `WithDims(slice(start, stop, step))`: the columns `range(*slice.indices(n))` -/
+  | withSlice (start stop step : Option Int)
 deriving DecidableEq, Repr
 
 inductive Cell
@@ -452,6 +458,15 @@ def pick : List Nat → Pt → Option Pt
     | some v, some vs => some (v :: vs)
     | _, _ => none
 
+/-- the non-negative positions of an index list with negative entries on `n` axes
+(`none`: an index is out of range, numpy raises `IndexError`) -/
+def normAll (n : Nat) : List Int → Option (List Nat)
+  | [] => some []
+  | i :: is =>
+    match PyData.normIndex n i, normAll n is with
+    | some j, some js => some (j :: js)
+    | _, _ => none
+
 /-- `x[:, mask]` for one point and a mask of the right length -/
 def maskPick : List Bool → Pt → Pt
   | b :: bs, v :: vs => if b then v :: maskPick bs vs else maskPick bs vs
@@ -466,11 +481,32 @@ def applyLeaf (tbl : ClassTable) (env : Nat → Pt → Option Pt) : Leaf → Pt 
   | .plain (.opq k), x => env k x
   | .plain (.withDims ds), x => pick ds x
   | .plain (.withMask bs), x => if bs.length = x.length then some (maskPick bs x) else none
+  | .plain (.withIdx ds), x => (normAll x.length ds).bind fun is => pick is x
+  -- a slice never raises `IndexError` (out-of-range bounds are clipped); step 0 is a `ValueError`
+  | .plain (.withSlice a b c), x => (PyData.sliceIndices a b c x.length).bind fun is => pick is x
 
 /-- apply the leaves one after the other -/
 def applyLeaves (tbl : ClassTable) (env : Nat → Pt → Option Pt) : List Leaf → Pt → Option Pt
   | [], x => some x
   | l :: ls, x => (applyLeaf tbl env l x).bind (applyLeaves tbl env ls)
+
+/-- `reduce(lambda x_i, tr: tr._apply(x_i), members, x)` with `g m` the `_apply` of member `m` -/
+def applyMembers (g : Nat → Pt → Option Pt) : List Nat → Pt → Option Pt
+  | [], x => some x
+  | m :: ms, x => (g m x).bind (applyMembers g ms)
+
+/-- `obj._apply(x)` *as coded*: a family object and a plain transform apply themselves,
+`TransformChain._apply` reduces over its members, each of which may be a chain again (the recursion
+is on fuel: `none` also when the nesting is deeper than the fuel, in particular for a chain that
+contains itself).  Theorem `applyRef_eq_flat`: this is the application of the flattened leaves. -/
+def applyRef (tbl : ClassTable) (env : Nat → Pt → Option Pt) (st : Store) : Nat → Nat → Pt → Option Pt
+  | 0, _, _ => none
+  | fuel + 1, r, x =>
+    match st[r]? with
+    | none => none
+    | some (.fam _ t) => applyFam tbl t x
+    | some (.leaf p) => applyLeaf tbl env (.plain p) x
+    | some (.chain ms) => applyMembers (applyRef tbl env st fuel) ms x
 
 /-! ### dimension typing: every object is a partial function on dimensions -/
 
@@ -481,6 +517,8 @@ def leafDim (envDim : Nat → Nat → Option Nat) : Leaf → Nat → Option Nat
   | .plain (.opq k), n => envDim k n
   | .plain (.withDims ds), n => if ds.all (· < n) then some ds.length else none
   | .plain (.withMask bs), n => if bs.length = n then some (bs.count true) else none
+  | .plain (.withIdx ds), n => (normAll n ds).map List.length
+  | .plain (.withSlice a b c), n => (PyData.sliceIndices a b c n).map List.length
 
 def leavesDim (envDim : Nat → Nat → Option Nat) : List Leaf → Nat → Option Nat
   | [], n => some n
